@@ -21,6 +21,11 @@
 //!       M  `PaMap::from_update_pdu` -> every attribute composed in map order, n = `bytes_len()`
 //!       B  `UpdateBuilder::from_update_message` -> `into_message`: the whole PDU
 //!       (`Derr` / `Merr` / `Berr` when the route returns an error)
+//!   `nl2 <fam> <wd> <ann> <attrs>` the same in a two-octet session (`SessionConfig::legacy()`); `attrs` hold no
+//!                                 attribute whose encoding depends on the AS number width (else `bad-op`)
+//!   `nlx <fam> <wd> <attrs> <ann>` the three sections of an UPDATE as given - `attrs` may hold MP attributes of any
+//!                                 family - re-added by a builder of the NLRI type `fam` (not c4) in a four-octet
+//!                                 session (+ ADD-PATH for `fam`a): placement of the NLRI in mixed UPDATEs
 //!   nl: `rej` | `err` | `ok w=<hex> a=<hex> o=<hex>`: the PDU built by `from_update_message` +
 //!       `add_announcements_from_pdu` + `add_withdrawals_from_pdu` + `into_message`, cut into the
 //!       NLRI octets of its MP_UNREACH_NLRI / MP_REACH_NLRI and its other attributes.
@@ -531,11 +536,22 @@ fn cut_built(pdu: &[u8]) -> Option<(Vec<u8>, Vec<u8>, Vec<u8>)> {
     Some((w, a, o))
 }
 
-fn exec_nl(f: Fam, wd: &[u8], ann: &[u8], attrs: &[u8]) -> String {
+fn exec_nl(f: Fam, wd: &[u8], ann: &[u8], attrs: &[u8], four: bool) -> String {
     if has_mp(attrs) { return "bad-op".into(); }
-    let raw = nl_pdu(f, wd, ann, attrs);
+    // K9 (AS_PATH / AGGREGATOR written four octets wide) is judged on the re2w lines
+    if !four && has_width_dependent(attrs) { return "bad-op".into(); }
+    exec_readd(f, nl_pdu(f, wd, ann, attrs), four)
+}
+
+/// `nlx`: the three sections as given (the attributes may hold MP attributes of any family)
+fn exec_nlx(f: Fam, wd: &[u8], attrs: &[u8], ann: &[u8]) -> String {
+    if f.conv { return "bad-op".into(); }
+    exec_readd(f, mk_pdu(wd, attrs, ann), true)
+}
+
+fn exec_readd(f: Fam, raw: Vec<u8>, four: bool) -> String {
     if raw.len() > MAX_PDU { return "bad-op".into(); }
-    let mut sc = SessionConfig::modern();
+    let mut sc = if four { SessionConfig::modern() } else { SessionConfig::legacy() };
     if f.ap { let (a, s, _) = fam_info(f); sc.add_addpath_rxtx(AfiSafiType::from((a, s))); }
     let src = match UpdateMessage::from_octets(Bytes::from(raw), &sc) { Ok(p) => p, Err(_) => return "rej".into() };
     let built: Result<Vec<u8>, ()> = match (f.b, f.ap) {
@@ -638,7 +654,66 @@ fn kv<'a>(tok: &'a str, k: &str) -> Result<Vec<u8>, String> {
     unhex(tok.strip_prefix(k).ok_or(format!("missing {}", k))?).ok_or(format!("hex in {}", k))
 }
 
-fn oracle_nl(f: Fam, wd: &[u8], ann: &[u8], attrs: &[u8], reply: &str) -> Result<(), String> {
+fn oracle_nl(f: Fam, wd: &[u8], ann: &[u8], attrs: &[u8], reply: &str, four: bool) -> Result<(), String> {
+    oracle_readd(f, wd, ann, false, attrs, reply, four)
+}
+
+/// the NLRI octets of family `f` an UPDATE with these sections carries on one side (`code` 14: announced,
+/// 15: withdrawn), read off the octets by RFC 4271 4.3 / RFC 4760 3, 4: the conventional section for IPv4
+/// unicast when it is not empty, else the first MP attribute of that type when it is of the family and
+/// framed (AFI, SAFI, next hop, reserved octet).  `.1` = IPv4 unicast NLRI are present BOTH in the
+/// conventional section and in an MP attribute of AFI/SAFI 1/1: a builder typed by one NLRI type reads
+/// one section (the conventional one); what the property asks of the other is not judged.
+fn carried(f: Fam, conv: &[u8], attrs: &[Tlv], code: u8) -> (Vec<u8>, bool) {
+    let (afi, safi, _) = fam_info(f);
+    let mp = attrs.iter().find(|t| t.1 == code).and_then(|t| {
+        let v = &t.2;
+        if v.len() < 3 || u16::from_be_bytes([v[0], v[1]]) != afi || v[2] != safi { return None; }
+        if code == 15 { return Some(v[3..].to_vec()); }
+        if v.len() < 5 { return None; }
+        let nh = v[3] as usize;
+        if v.len() < 5 + nh { return None; }
+        Some(v[5 + nh..].to_vec())
+    });
+    if f.b == V4u && !conv.is_empty() { return (conv.to_vec(), mp.map_or(false, |m| !m.is_empty())); }
+    (mp.unwrap_or_default(), false)
+}
+
+fn oracle_nlx(f: Fam, wd: &[u8], attrs: &[u8], ann: &[u8], reply: &str) -> Result<(), String> {
+    if reply == "bad-op" || reply == "rej" { return Ok(()); }
+    let src = walk(attrs).ok_or("mis-framed section accepted")?;
+    let (w, w_both) = carried(f, wd, &src, 15);
+    let (a, a_both) = carried(f, ann, &src, 14);
+    let rest: Vec<u8> = src.iter().filter(|t| t.1 != 14 && t.1 != 15).flat_map(|t| wire_attr(t.0, t.1, &t.2, t.0 & 0x10 != 0)).collect();
+    oracle_readd(f, &w, &a, true, &rest, reply, true)?;
+    // IPv4 unicast NLRI in the conventional section AND in an MP attribute of AFI/SAFI 1/1: everything else having
+    // been judged, the property wants the NLRI of the MP attribute carried too (known finding K15, tagged so that
+    // only it is matched)
+    if (w_both || a_both) && reply.starts_with("ok w=") {
+        let toks: Vec<&str> = reply.split(' ').collect();
+        for (both, code, conv, got, what) in [(w_both, 15u8, wd, kv(toks[1], "w=")?, "withdrawals"), (a_both, 14u8, ann, kv(toks[2], "a=")?, "announcements")] {
+            if !both { continue; }
+            let (afi, safi, _) = fam_info(f);
+            let v = &src.iter().find(|t| t.1 == code).unwrap().2;
+            debug_assert!(u16::from_be_bytes([v[0], v[1]]) == afi && v[2] == safi);
+            let mpo = if code == 15 { v[3..].to_vec() } else { v[5 + v[3] as usize..].to_vec() };
+            let (mp_items, _) = ref_items(f, &mpo);
+            let (conv_items, clean) = ref_items(f, conv);
+            let (got_items, _) = ref_items(f, &got);
+            if !clean || mp_items.is_empty() { continue; }
+            let carried_all = mp_items.iter().all(|x| got_items.contains(x));
+            if !carried_all {
+                return Err(format!("[K15] IPv4 unicast {} both in the conventional section ({}) and in an MP attribute of AFI/SAFI 1/1 ({}): {} written, those of the MP attribute are lost",
+                    what, conv_items.len(), mp_items.len(), got_items.len()));
+            }
+        }
+    }
+    Ok(())
+}
+
+/// `wd` / `ann`: the NLRI octets of the builder's family the UPDATE carries; `attrs`: its attributes other
+/// than MP_REACH_NLRI / MP_UNREACH_NLRI
+fn oracle_readd(f: Fam, wd: &[u8], ann: &[u8], _x: bool, attrs: &[u8], reply: &str, four: bool) -> Result<(), String> {
     if reply == "bad-op" || reply == "rej" { return Ok(()); }
     if reply == "panic" { return Err("re-adding the NLRI of an accepted UPDATE panicked".into()); }
     let src = walk(attrs).ok_or("mis-framed section accepted")?;
@@ -669,7 +744,7 @@ fn oracle_nl(f: Fam, wd: &[u8], ann: &[u8], attrs: &[u8], reply: &str) -> Result
     };
     if !same(&gw, &w_items, wtol) { return Err(format!("withdrawals differ: {} received, {} written", w_items.len(), gw.len())); }
     if !same(&ga, &a_items, atol) { return Err(format!("announcements differ: {} received, {} written", a_items.len(), ga.len())); }
-    judge_list("builder", &map_view(&src), &o)
+    judge_list_w("builder", &map_view(&src), &o, four, Read::Same)
 }
 
 // ---------------------------------------------------------------------------
@@ -857,6 +932,43 @@ fn damage_nlri(rng: &mut Rng, mut v: Vec<u8>) -> Vec<u8> {
     }
 }
 
+/// one attribute of the (kind x length encoding) grid: `malformed` = a value the type's length rules refuse in
+/// a session of that AS number width, `enc`: 0 = one-octet length, 1 = EXTENDED_LEN on a value of at most 255
+/// octets, 2 = a value of more than 255 octets. `None` where the cell does not exist (a fixed-size kind has no
+/// well-formed value over 255 octets, ATTR_SET no malformed one, the reserved type 255 no malformed value at all)
+fn grid_attr(rng: &mut Rng, code: u8, malformed: bool, enc: u8, four: bool) -> Option<Vec<u8>> {
+    let fixed = matches!(code, 1 | 3 | 4 | 5 | 6 | 7 | 9 | 18 | 20 | 21 | 35);
+    let val: Vec<u8> = if !malformed {
+        if enc == 2 {
+            if fixed { return None; }
+            match code {
+                2 if !four => { let mut v = vec![2u8, 130]; for _ in 0..130 { v.extend(rng.u16().to_be_bytes()); } v }
+                2 | 17 => { let t = *rng.pick(&[1u8, 2, 3, 4]); let mut v = vec![t, 70]; for _ in 0..70 { v.extend(rng.u32().to_be_bytes()); } v }
+                8 | 10 => { let k = rng.usize(64, 80); rng.bytes(4 * k) }
+                16 => { let k = rng.usize(33, 40); rng.bytes(8 * k) }
+                25 => { let k = rng.usize(13, 16); rng.bytes(20 * k) }
+                32 => { let k = rng.usize(22, 30); rng.bytes(12 * k) }
+                128 => { let k = rng.usize(260, 400); rng.bytes(4 + k) }
+                _ => { let k = rng.usize(256, 400); rng.bytes(k) }
+            }
+        } else {
+            match code { 2 if !four => gen_aspath2(rng), 7 if !four => rng.bytes(6), _ => gen_val(rng, code) }
+        }
+    } else {
+        let lens: Vec<usize> = if enc == 2 { (256..330).collect() } else { (0..40).collect() };
+        let cand: Vec<usize> = lens.into_iter().filter(|&n| !ref_valid_w(code, &vec![0u8; n], four)).collect();
+        if cand.is_empty() { return None; }
+        let n = *rng.pick(&cand);
+        // (an AS path of zero octets is well formed; zero octets of anything else make a segment of type 0)
+        let mut v = rng.bytes(n);
+        if code == 2 || code == 17 { for x in v.iter_mut().take(2) { *x = 0; } }
+        v
+    };
+    if val.len() > 255 && enc != 2 { return None; }
+    if !malformed && !ref_valid_w(code, &val, four) { return None; }
+    Some(wire_attr(ref_flags(code).unwrap(), code, &val, enc != 0))
+}
+
 fn all_fams() -> Vec<Fam> {
     let mut v = vec![Fam { b: V4u, ap: false, conv: true }, Fam { b: V4u, ap: true, conv: true }];
     for x in BASES { v.push(Fam { b: x.1, ap: false, conv: false }); v.push(Fam { b: x.1, ap: true, conv: false }); }
@@ -984,6 +1096,89 @@ impl Prop for C07 {
             }
             lines.push(format!("nl {} {} {} {}", fam_name(f), hex(&wd), hex(&ann), hex(&parts)));
         }
+        // 5b. the same in a two-octet session (SessionConfig::legacy(), + ADD-PATH for the `a` families): the
+        //     attributes are those a two-octet speaker sends, minus the width-dependent ones (K9: re2w lines)
+        let n_nl2 = if tier == Tier::Quick { 560 } else { 40_000 };
+        for i in 0..n_nl2 {
+            let f = fams[i % fams.len()];
+            let mut wd = if rng.chance(1, 2) { gen_nlri(rng, f, 5) } else { vec![] };
+            let mut ann = if rng.chance(3, 4) { gen_nlri(rng, f, 6) } else { vec![] };
+            if !f.conv && rng.chance(1, 5) { if rng.bool() { ann = damage_nlri(rng, ann); } else { wd = damage_nlri(rng, wd); } }
+            if f.conv && rng.chance(1, 12) { ann = damage_nlri(rng, ann); }
+            let mut parts: Vec<u8> = Vec::new();
+            for _ in 0..rng.usize(0, 4) {
+                let a = match rng.below(7) {
+                    0..=3 => { let c = *rng.pick(&TYPED); gen_typed2(rng, c) }
+                    4 => { let c = *rng.pick(&[17u8, 18]); gen_typed2(rng, c) }
+                    5 => gen_unknown(rng),
+                    _ => gen_invalid(rng) };
+                if walk(&a).map_or(false, |w| w.iter().any(width_dependent)) { continue; }
+                if parts.len() + a.len() < 2000 { parts.extend(a); }
+            }
+            lines.push(format!("nl2 {} {} {} {}", fam_name(f), hex(&wd), hex(&ann), hex(&parts)));
+        }
+        // 5c. placement: UPDATEs mixing conventional IPv4 NLRI with MP attributes of the builder's or of another
+        //     family, MP attributes of another family only, two MP_REACH_NLRI, a next hop cut short - for builders
+        //     of all 26 NLRI types (a family is never put both in the conventional and in an MP section of one side)
+        let n_nlx = if tier == Tier::Quick { 780 } else { 60_000 };
+        let mpf: Vec<Fam> = fams.iter().copied().filter(|f| !f.conv).collect();
+        for i in 0..n_nlx {
+            let f = mpf[i % mpf.len()];
+            // the conventional sections carry path ids exactly when the session has ADD-PATH for IPv4 unicast
+            let cf = Fam { b: V4u, ap: f.b == V4u && f.ap, conv: true };
+            let other = |rng: &mut Rng| -> Fam { loop { let g = *rng.pick(&mpf); if g.b != f.b { return Fam { ap: false, ..g }; } } };
+            let mp = |rng: &mut Rng, g: Fam, code: u8, n: usize, cut_nh: bool| -> Vec<u8> {
+                let (afi, safi, nh) = fam_info(g);
+                let mut v = Vec::new();
+                v.extend(afi.to_be_bytes()); v.push(safi);
+                if code == 14 { v.push(if cut_nh { 200 } else { nh as u8 }); v.extend(std::iter::repeat(1u8).take(nh)); v.push(0); }
+                v.extend(gen_nlri(rng, g, n));
+                mp_attr(code, &v)
+            };
+            let mut attrs: Vec<u8> = Vec::new();
+            let (mut wd, mut ann) = (vec![], vec![]);
+            let sc = i / mpf.len() % 6;
+            let conv_ok = f.b != V4u;   // never IPv4 unicast on both sides of one direction
+            match sc {
+                0 => {   // conventional sections next to MP attributes of the builder's family (or, for an IPv4 unicast builder, of another)
+                    wd = gen_nlri(rng, cf, 4); ann = gen_nlri(rng, cf, 4);
+                    let g = if conv_ok { f } else { other(rng) };
+                    attrs.extend(mp(rng, g, 14, 4, false)); attrs.extend(mp(rng, g, 15, 4, false));
+                }
+                1 => { let g = other(rng); attrs.extend(mp(rng, g, 14, 4, false)); attrs.extend(mp(rng, g, 15, 4, false)); }
+                2 => {   // MP_REACH of the builder's family, MP_UNREACH of another (and the other way round)
+                    let g = other(rng);
+                    if rng.bool() { attrs.extend(mp(rng, f, 14, 5, false)); attrs.extend(mp(rng, g, 15, 4, false)); }
+                    else { attrs.extend(mp(rng, g, 14, 4, false)); attrs.extend(mp(rng, f, 15, 5, false)); }
+                    if conv_ok && rng.bool() { ann = gen_nlri(rng, cf, 3); }
+                }
+                3 => {   // two MP_REACH_NLRI / two MP_UNREACH_NLRI: the first one counts
+                    let g = other(rng);
+                    let code = if rng.bool() { 14 } else { 15 };
+                    let (x, y) = if rng.bool() { (f, g) } else { (g, f) };
+                    attrs.extend(mp(rng, x, code, 4, false)); attrs.extend(mp(rng, y, code, 4, false));
+                }
+                4 => {   // next hop length running past the attribute: `announcements()` is an Err, nothing is added
+                    attrs.extend(mp(rng, f, 14, 3, true)); attrs.extend(mp(rng, f, 15, 3, false));
+                }
+                _ => {   // IPv4 unicast builder on conventional sections next to MP attributes; others: withdrawals only, both places
+                    if conv_ok { wd = gen_nlri(rng, cf, 4); attrs.extend(mp(rng, f, 15, 4, false)); }
+                    else { wd = gen_nlri(rng, cf, 4); ann = gen_nlri(rng, cf, 4); let g = other(rng); attrs.extend(mp(rng, g, 15, 3, false)); }
+                }
+            }
+            // (known finding K15) for IPv4 unicast builders now and then the family in both places of one side
+            if !conv_ok && sc == 5 && rng.chance(1, 2) {
+                let g = Fam { conv: false, ..f };
+                attrs.clear();
+                if rng.bool() { attrs.extend(mp(rng, g, 14, 2, false)); if ann.is_empty() { ann = gen_nlri(rng, cf, 2); } }
+                else { attrs.extend(mp(rng, g, 15, 2, false)); if wd.is_empty() { wd = gen_nlri(rng, cf, 2); } }
+            }
+            // other attributes before, between (not here) and after
+            let pre = if rng.bool() { gen_typed(rng, 1) } else { vec![] };
+            let post = match rng.below(4) { 0 => gen_unknown(rng), 1 => gen_typed(rng, 8), 2 => gen_invalid(rng), _ => vec![] };
+            let all: Vec<u8> = [pre, attrs, post].concat();
+            lines.push(format!("nlx {} {} {} {}", fam_name(f), hex(&wd), hex(&all), hex(&ann)));
+        }
         // 6. two-octet sessions: every typed kind alone, AS paths / AGGREGATOR of both widths, sections
         for &c in &TYPED {
             for _ in 0..3 { lines.push(re2_line(&gen_typed2(rng, c))); }
@@ -1011,6 +1206,22 @@ impl Prop for C07 {
             // without known finding K9 in the way
             if rest != all { lines.push(re2_line(&rest)); }
         }
+        // 7. the grid (found thin by tools/c07_attr_stats.py): every typed kind x well formed / malformed x the
+        //    three length encodings on input, in a four-octet and in a two-octet session, alone and after an ORIGIN
+        for &four in &[true, false] {
+            for &c in &TYPED {
+                for malformed in [false, true] {
+                    for enc in 0..3u8 {
+                        for k in 0..3 {
+                            if let Some(a) = grid_attr(rng, c, malformed, enc, four) {
+                                let s = if k == 2 { let mut s = wire_attr(0x40, 1, &[1], false); s.extend(a); s } else { a };
+                                lines.push(if four { re(&s) } else { re2_line(&s) });
+                            }
+                        }
+                    }
+                }
+            }
+        }
         lines
     }
 
@@ -1021,7 +1232,15 @@ impl Prop for C07 {
             ["re2", a] => match strict_unhex(a) { Some(a) => exec_re(&a, Some(false)), None => "bad-op".into() },
             ["re2w", a] => match strict_unhex(a) { Some(a) => exec_re(&a, Some(true)), None => "bad-op".into() },
             ["nl", f, w, a, at] => match (fam_of(f), strict_unhex(w), strict_unhex(a), strict_unhex(at)) {
-                (Some(f), Some(w), Some(a), Some(at)) => exec_nl(f, &w, &a, &at),
+                (Some(f), Some(w), Some(a), Some(at)) => exec_nl(f, &w, &a, &at, true),
+                _ => "bad-op".into(),
+            },
+            ["nl2", f, w, a, at] => match (fam_of(f), strict_unhex(w), strict_unhex(a), strict_unhex(at)) {
+                (Some(f), Some(w), Some(a), Some(at)) => exec_nl(f, &w, &a, &at, false),
+                _ => "bad-op".into(),
+            },
+            ["nlx", f, w, at, a] => match (fam_of(f), strict_unhex(w), strict_unhex(at), strict_unhex(a)) {
+                (Some(f), Some(w), Some(at), Some(a)) => exec_nlx(f, &w, &at, &a),
                 _ => "bad-op".into(),
             },
             _ => "bad-op".into(),
@@ -1034,7 +1253,15 @@ impl Prop for C07 {
             ["re", a] => match strict_unhex(a) { Some(a) => oracle_re(&a, reply, true), None => Ok(()) },
             ["re2", a] | ["re2w", a] => match strict_unhex(a) { Some(a) => oracle_re(&a, reply, false), None => Ok(()) },
             ["nl", f, w, a, at] => match (fam_of(f), strict_unhex(w), strict_unhex(a), strict_unhex(at)) {
-                (Some(f), Some(w), Some(a), Some(at)) => oracle_nl(f, &w, &a, &at, reply),
+                (Some(f), Some(w), Some(a), Some(at)) => oracle_nl(f, &w, &a, &at, reply, true),
+                _ => Ok(()),
+            },
+            ["nl2", f, w, a, at] => match (fam_of(f), strict_unhex(w), strict_unhex(a), strict_unhex(at)) {
+                (Some(f), Some(w), Some(a), Some(at)) => oracle_nl(f, &w, &a, &at, reply, false),
+                _ => Ok(()),
+            },
+            ["nlx", f, w, at, a] => match (fam_of(f), strict_unhex(w), strict_unhex(at), strict_unhex(a)) {
+                (Some(f), Some(w), Some(at), Some(a)) if !f.conv => oracle_nlx(f, &w, &at, &a, reply),
                 _ => Ok(()),
             },
             _ => Ok(()),
@@ -1064,7 +1291,18 @@ impl Prop for C07 {
                 };
                 format!("{}:{}:{}", op, r, kinds)
             }
-            ["nl", f, ..] => format!("nl:{}:{}", f, r),
+            [op @ ("nl" | "nl2"), f, ..] => format!("{}:{}:{}", op, f, r),
+            ["nlx", f, w, at, a] => {
+                // which sections carry NLRI, and whether an MP attribute is of the builder's family
+                let own = |code: u8| -> &'static str {
+                    let (afi, safi) = fam_of(f).map(|f| { let (a, s, _) = fam_info(f); (a, s) }).unwrap_or((0, 0));
+                    match strict_unhex(at).and_then(|x| walk(&x)).and_then(|ws| ws.into_iter().find(|t| t.1 == code)) {
+                        None => "-",
+                        Some(t) => if t.2.len() >= 3 && u16::from_be_bytes([t.2[0], t.2[1]]) == afi && t.2[2] == safi { "own" } else { "other" },
+                    }
+                };
+                format!("nlx:{}:conv{}{}:reach-{}:unreach-{}", r, if *w != "-" { "W" } else { "" }, if *a != "-" { "A" } else { "" }, own(14), own(15))
+            }
             _ => format!("other:{}", r),
         }
     }
